@@ -1,4 +1,4 @@
-\* protocol as implemented, 1 connection x 2 callers; NeverStuck and ByDeadline do NOT hold for it (leads: gen/Pool_Gen_cex*.cfg)
+\* protocol before the repairs (all Fix* = FALSE; kept as a leads generator: only the safety part is checked), 1 connection x 2 callers; NeverStuck and ByDeadline do NOT hold for it (leads: gen/Pool_Gen_cex*.cfg)
 CONSTANTS
   NC = 1
   Waiters = {w1, w2}
